@@ -169,8 +169,9 @@ def apply_edit(s: ASchema, db, e, step):
             src = lt.indexes[i]
             dup = Index(list(src.subjects), name=src.name, unique=src.unique, type=src.type, pk=src.pk,
                         note=src.note.text or None, comment=src.comment)
+            earlier_equal = any(x == dup for x in lt.indexes[:i])
             lt.add_index(dup)
-            if c % 2:
+            if c % 2 and not earlier_equal:      # with a third equal index further up, which one goes is not fixed by the statement
                 lt.delete_index(dup)
             else:
                 lt.delete_index(len(lt.indexes) - 1)
